@@ -1080,3 +1080,216 @@ Proof.
   split; [|exact Hp].
   destruct (ro_exp o), (ro_noexp o); simpl in *; congruence.
 Qed.
+
+(* ================= corollaries ================= *)
+
+Lemma decomp_unique h p s h' p' s' :
+  h ++ dot :: p ++ dot :: s = h' ++ dot :: p' ++ dot :: s' ->
+  nodot h -> nodot p -> nodot s -> nodot h' -> nodot p' -> nodot s' ->
+  h = h' /\ p = p' /\ s = s'.
+Proof.
+  intros E Hh Hp Hs Hh' Hp' Hs'.
+  rewrite <- !app_dot_assoc in E.
+  assert (A : split_last ((h ++ dot :: p) ++ dot :: s) = Some (h ++ dot :: p, s)) by (apply split_last_spec; auto).
+  assert (B : split_last ((h' ++ dot :: p') ++ dot :: s') = Some (h' ++ dot :: p', s')) by (apply split_last_spec; auto).
+  rewrite E in A. rewrite A in B. inversion B as [[E1 E2]].
+  assert (C : split_dots (h ++ dot :: p) = [h; p]) by (apply split_dots_two; auto).
+  assert (D : split_dots (h' ++ dot :: p') = [h'; p']) by (apply split_dots_two; auto).
+  rewrite E1 in C. rewrite C in D. inversion D. auto.
+Qed.
+
+Section Corollaries.
+  Variable sig_valid : N -> bytes -> bytes -> bool.
+  Variable json_parse : bytes -> option fields.
+
+  (* adding keys to a keyset never turns an accepted token into a rejected one *)
+  Lemma verify_monotone keys extra1 extra2 o tok r :
+    verify sig_valid json_parse keys o tok = Some (VOk r) ->
+    verify sig_valid json_parse (extra1 ++ keys ++ extra2) o tok = Some (VOk r).
+  Proof.
+    rewrite !verify_iff_accepts. unfold accepts.
+    intros [v [Ho [h [p [s [sg [hb [pb [hdr H]]]]]]]]].
+    destruct H as [-> [Hnh [Hnp [Hns [Hd [Hne [Eh [Ej [Ep [Ejp [Hk [Ht [Hpl Hv]]]]]]]]]]]]].
+    destruct Hk as [k [Hin Hk]].
+    exists v. split; [assumption|]. exists h, p, s, sg, hb, pb, hdr.
+    split; [reflexivity|]. do 9 (split; [assumption|]).
+    split; [|split; [assumption|split; assumption]].
+    exists k. split; [|assumption]. apply in_or_app. right. apply in_or_app. left. assumption.
+  Qed.
+
+  (* what an accepted token's header says: the algorithm of an enabled key of
+     the keyset, no crit *)
+  Lemma accepted_header keys o tok r h p s hb hdr :
+    verify sig_valid json_parse keys o tok = Some (VOk r) ->
+    tok = h ++ dot :: p ++ dot :: s -> nodot h -> nodot p -> nodot s ->
+    b64_decode h = Some hb -> json_parse hb = Some hdr ->
+    lookup s_crit hdr = None
+    /\ exists k, In k keys /\ kenabled k = true /\ lookup s_alg hdr = Some (JStr (kalg k)).
+  Proof.
+    intros H -> Hh Hp Hs Hd Hj. apply verify_iff_accepts in H.
+    destruct H as [v [Ho [h' [p' [s' [sg [hb' [pb [hdr' H]]]]]]]]].
+    destruct H as [E [Hnh [Hnp [Hns [Hd' [Hne [Eh [Ej [Ep [Ejp [Hk [Ht [Hpl Hv]]]]]]]]]]]]].
+    destruct (decomp_unique _ _ _ _ _ _ E Hh Hp Hs Hnh Hnp Hns) as [<- [<- <-]].
+    assert (hb' = hb) by congruence. subst hb'. assert (hdr' = hdr) by congruence. subst hdr'.
+    destruct Hk as [k [Hin [Hen [_ [Ha [Hc _]]]]]]. split; [assumption|]. exists k. auto.
+  Qed.
+
+  (* alg confusion: a header naming an algorithm that no enabled key has
+     (e.g. "none", or HS256 against an RSA keyset) is never accepted *)
+  Lemma foreign_alg_rejected keys o tok r h p s hb hdr a :
+    tok = h ++ dot :: p ++ dot :: s -> nodot h -> nodot p -> nodot s ->
+    b64_decode h = Some hb -> json_parse hb = Some hdr ->
+    lookup s_alg hdr = Some (JStr a) ->
+    (forall k, In k keys -> kenabled k = true -> kalg k <> a) ->
+    verify sig_valid json_parse keys o tok <> Some (VOk r).
+  Proof.
+    intros E Hh Hp Hs Hd Hj Ha Hno H.
+    destruct (accepted_header _ _ _ _ _ _ _ _ _ H E Hh Hp Hs Hd Hj) as [_ [k [Hin [Hen Hk]]]].
+    rewrite Ha in Hk. inversion Hk. eapply Hno; eauto.
+  Qed.
+
+  Lemma crit_rejected keys o tok r h p s hb hdr c :
+    tok = h ++ dot :: p ++ dot :: s -> nodot h -> nodot p -> nodot s ->
+    b64_decode h = Some hb -> json_parse hb = Some hdr ->
+    lookup s_crit hdr = Some c ->
+    verify sig_valid json_parse keys o tok <> Some (VOk r).
+  Proof.
+    intros E Hh Hp Hs Hd Hj Hc H.
+    destruct (accepted_header _ _ _ _ _ _ _ _ _ H E Hh Hp Hs Hd Hj) as [Hn _]. congruence.
+  Qed.
+
+  (* a token whose signature part is empty is never accepted *)
+  Lemma empty_signature_rejected keys o u r :
+    verify sig_valid json_parse keys o (u ++ [dot]) <> Some (VOk r).
+  Proof.
+    intros H. apply verify_iff_accepts in H.
+    destruct H as [v [Ho [h [p [s [sg [hb [pb [hdr H]]]]]]]]].
+    destruct H as [E [Hnh [Hnp [Hns [Hd [Hne _]]]]]].
+    rewrite <- app_dot_assoc in E.
+    assert (A : split_last (u ++ [dot]) = Some (u, [])) by (apply split_last_spec; split; [reflexivity | intros []]).
+    assert (B : split_last ((h ++ dot :: p) ++ dot :: s) = Some (h ++ dot :: p, s)) by (apply split_last_spec; auto).
+    rewrite <- E in B. rewrite A in B. inversion B; subst s. inversion Hd. congruence.
+  Qed.
+
+  (* the error class: VOther (a validation error, e.g. "token has expired")
+     iff no enabled key accepts and some enabled key fails only at validation *)
+  Lemma verify_loop_other keys v tok i :
+    verify_loop sig_valid json_parse keys v tok i = VOther <->
+    (forall k r, In k keys -> kenabled k = true -> verify_key sig_valid json_parse k v tok <> VOk r)
+    /\ (i = true \/ exists k, In k keys /\ kenabled k = true
+                              /\ verify_key sig_valid json_parse k v tok = VOther).
+  Proof.
+    revert i. induction keys as [|k keys IH]; intros i; simpl.
+    - destruct i; split; try discriminate; auto.
+      + intros [_ [H|[k [[] _]]]]; discriminate.
+    - destruct (kenabled k) eqn:Ek.
+      + destruct (verify_key sig_valid json_parse k v tok) as [r'| |] eqn:Ev.
+        * split; [discriminate|]. intros [H _]. exfalso. apply (H k r'); auto.
+        * rewrite IH. split.
+          -- intros [H1 H2]. split.
+             ++ intros k' r' [->|Hin] Hen; [congruence | apply H1; auto].
+             ++ destruct H2 as [H2|[k' [Hin H2]]]; [auto | right; exists k'; auto].
+          -- intros [H1 H2]. split.
+             ++ intros k' r' Hin Hen. apply H1; auto.
+             ++ destruct H2 as [H2|[k' [[->|Hin] [Hen H2]]]]; [auto | congruence | right; exists k'; auto].
+        * rewrite IH. split.
+          -- intros [H1 _]. split.
+             ++ intros k' r' [->|Hin] Hen; [congruence | apply H1; auto].
+             ++ right. exists k. auto.
+          -- intros [H1 _]. split; [intros k' r' Hin Hen; apply H1; auto | auto].
+      + rewrite IH. split.
+        * intros [H1 H2]. split.
+          -- intros k' r' [->|Hin] Hen; [congruence | apply H1; auto].
+          -- destruct H2 as [H2|[k' [Hin H2]]]; [auto | right; exists k'; auto].
+        * intros [H1 H2]. split.
+          -- intros k' r' Hin Hen. apply H1; auto.
+          -- destruct H2 as [H2|[k' [[->|Hin] [Hen H2]]]]; [auto | congruence | right; exists k'; auto].
+  Qed.
+End Corollaries.
+
+(* ================= which accepted strings are canonical ================= *)
+
+(* the unused low bits of a final 2- or 3-character group are zero *)
+Fixpoint b64_canonical_vals (v : list N) : bool :=
+  match v with
+  | [] => true
+  | [_] => false
+  | [a; b] => b mod 16 =? 0
+  | [a; b; c] => c mod 4 =? 0
+  | a :: b :: c :: d :: t => b64_canonical_vals t
+  end.
+
+Definition b64_canonical (s : bytes) : bool :=
+  match map_opt b64_val s with Some v => b64_canonical_vals v | None => false end.
+
+Lemma b64_char_inj u w : u < 64 -> w < 64 -> b64_char u = b64_char w -> u = w.
+Proof.
+  intros Hu Hw E. apply b64_val_char in Hu. apply b64_val_char in Hw. rewrite E in Hu. congruence.
+Qed.
+
+Lemma map_opt_cons_inv {A B} (f : A -> option B) s y r :
+  map_opt f s = Some (y :: r) -> exists c s', s = c :: s' /\ f c = Some y /\ map_opt f s' = Some r.
+Proof.
+  destruct s as [|c s']; simpl; [discriminate|].
+  destruct (f c) eqn:E; [|discriminate]. destruct (map_opt f s') eqn:E2; [|discriminate].
+  intros H; inversion H; subst. exists c, s'. auto.
+Qed.
+
+Lemma map_opt_nil_inv {A B} (f : A -> option B) s : map_opt f s = Some [] -> s = [].
+Proof.
+  destruct s as [|c s']; simpl; auto. destruct (f c); [|discriminate]. destruct (map_opt f s'); discriminate.
+Qed.
+
+Lemma b64_reencode_vals v : forall s x,
+  map_opt b64_val s = Some v -> b64_decode_vals v = Some x ->
+  (b64_encode x = s <-> b64_canonical_vals v = true).
+Proof.
+  induction v as [|a|a b|a b c|a b c d t IH] using list_ind4; intros s x Hs Hx.
+  - apply map_opt_nil_inv in Hs. subst. inversion Hx; subst. simpl. tauto.
+  - discriminate.
+  - apply map_opt_cons_inv in Hs. destruct Hs as [c1 [s1 [-> [V1 Hs]]]].
+    apply map_opt_cons_inv in Hs. destruct Hs as [c2 [s2 [-> [V2 Hs]]]].
+    apply map_opt_nil_inv in Hs. subst s2.
+    apply b64_char_val in V1. destruct V1 as [<- A1]. apply b64_char_val in V2. destruct V2 as [<- A2].
+    inversion Hx; subst x. cbn [b64_encode b64_canonical_vals].
+    replace ((a * 4 + b / 16) / 4) with a by lia.
+    replace ((a * 4 + b / 16) mod 4 * 16) with (b / 16 * 16) by lia.
+    split.
+    + intros E. inversion E as [E2]. apply b64_char_inj in E2; lia.
+    + intros E. replace (b / 16 * 16) with b by lia. reflexivity.
+  - apply map_opt_cons_inv in Hs. destruct Hs as [c1 [s1 [-> [V1 Hs]]]].
+    apply map_opt_cons_inv in Hs. destruct Hs as [c2 [s2 [-> [V2 Hs]]]].
+    apply map_opt_cons_inv in Hs. destruct Hs as [c3 [s3 [-> [V3 Hs]]]].
+    apply map_opt_nil_inv in Hs. subst s3.
+    apply b64_char_val in V1. destruct V1 as [<- A1]. apply b64_char_val in V2. destruct V2 as [<- A2].
+    apply b64_char_val in V3. destruct V3 as [<- A3].
+    inversion Hx; subst x. cbn [b64_encode b64_canonical_vals].
+    replace ((a * 4 + b / 16) / 4) with a by lia.
+    replace ((a * 4 + b / 16) mod 4 * 16 + (b mod 16 * 16 + c / 4) / 16) with b by lia.
+    replace ((b mod 16 * 16 + c / 4) mod 16 * 4) with (c / 4 * 4) by lia.
+    split.
+    + intros E. inversion E as [E3]. apply b64_char_inj in E3; lia.
+    + intros E. replace (c / 4 * 4) with c by lia. reflexivity.
+  - apply map_opt_cons_inv in Hs. destruct Hs as [c1 [s1 [-> [V1 Hs]]]].
+    apply map_opt_cons_inv in Hs. destruct Hs as [c2 [s2 [-> [V2 Hs]]]].
+    apply map_opt_cons_inv in Hs. destruct Hs as [c3 [s3 [-> [V3 Hs]]]].
+    apply map_opt_cons_inv in Hs. destruct Hs as [c4 [s4 [-> [V4 Hs]]]].
+    apply b64_char_val in V1. destruct V1 as [<- A1]. apply b64_char_val in V2. destruct V2 as [<- A2].
+    apply b64_char_val in V3. destruct V3 as [<- A3]. apply b64_char_val in V4. destruct V4 as [<- A4].
+    cbn [b64_decode_vals] in Hx. destruct (b64_decode_vals t) as [r|] eqn:Er; [|discriminate].
+    inversion Hx; subst x. cbn [b64_encode b64_canonical_vals].
+    replace ((a * 4 + b / 16) / 4) with a by lia.
+    replace ((a * 4 + b / 16) mod 4 * 16 + (b mod 16 * 16 + c / 4) / 16) with b by lia.
+    replace ((b mod 16 * 16 + c / 4) mod 16 * 4 + (c mod 4 * 64 + d) / 64) with c by lia.
+    replace ((c mod 4 * 64 + d) mod 64) with d by lia.
+    rewrite <- (IH s4 r Hs eq_refl). split; [intros E; inversion E; reflexivity | intros ->; reflexivity].
+Qed.
+
+(* an accepted string re-encodes to itself iff it is canonical: so distinct
+   accepted strings with the same decoding exist exactly among the
+   non-canonical ones *)
+Lemma b64_reencode s x : b64_decode s = Some x -> (b64_encode x = s <-> b64_canonical s = true).
+Proof.
+  unfold b64_decode, b64_canonical. destruct (map_opt b64_val s) as [v|] eqn:E; [|discriminate].
+  intros H. eapply b64_reencode_vals; eauto.
+Qed.
